@@ -8,6 +8,8 @@
 
 #include <dlfcn.h>
 #include <errno.h>
+#include <fcntl.h>
+#include <stdarg.h>
 #include <sys/epoll.h>
 #include <sys/eventfd.h>
 #include <sys/timerfd.h>
@@ -171,6 +173,15 @@ int pipe2(int* fds, int flags) {
   return r;
 }
 
+int open(const char* path, int flags, ...) {
+  static int (*real_open)(const char*, int, ...) = (int (*)(const char*, int, ...))dlsym(RTLD_NEXT, "open");
+  mode_t mode = 0;
+  if (flags & (O_CREAT | O_TMPFILE)) { va_list ap; va_start(ap, flags); mode = (mode_t)va_arg(ap, int); va_end(ap); }
+  int fd = real_open(path, flags, mode);
+  if (sim_on()) note_open(fd);
+  return fd;
+}
+
 int epoll_create(int size) {
   static int (*real_create)(int) = (int (*)(int))dlsym(RTLD_NEXT, "epoll_create");
   int fd = real_create(size);
@@ -191,6 +202,7 @@ int close(int fd) {
   for (size_t i = 0; i < g_regs.size();) {
     if (g_regs[i].fd == fd || g_regs[i].epfd == fd) g_regs.erase_at(i); else ++i;
   }
+  if (uring_on_close) uring_on_close(fd);
   int r = rfd.close(fd);
   wake_kernel_waiters();
   return r;
